@@ -602,6 +602,85 @@ static std::string run_px(const std::vector<std::string>& w)
 		return out;
 	});
 }
+// ------------------------------------------------------------------------------------------- ec / sw (direct runs of generated functions)
+//   ec <cat> <h|t> <throws> <corrupt> <n> <i>   the REAL private pvExtraCheck of a HashSet (h) / TreeSet (t) holding keys 1..n, called
+//        on the position of the i-th key; throws=1: the first user functor call inside the check throws; corrupt=1 / 2: the
+//        item's value was overwritten in place so that its key reads 96 (an empty bucket, above every key) / 0 (a container the check must reject)
+//   sw <cat> <n1> <n2>     the REAL TreeSet::Swap: the four fields of both objects are named 1..8 before the call and the names
+//        found in the eight fields are printed after it
+template<typename S, typename It>
+static std::string ec_call(S& set, It pos, int throws, int corrupt)
+{
+	typedef typename S::Item E;
+	int64_t* cell = const_cast<E&>(*pos).p;
+	int64_t old = *cell;
+	if (corrupt == 1) *cell = 9600; else if (corrupt == 2) *cell = 0;
+	arm_kind(K_FUNC, throws ? 0 : -1);
+	bool r = set.pvExtraCheck(pos);
+	bool f = throws && fired(K_FUNC);
+	arm_kind(K_FUNC, -1);
+	*cell = old;
+	return std::string("ec=") + (r ? "1" : "0") + " threw=" + (f ? "1" : "0");
+}
+template<int C>
+static std::string run_ec(const std::vector<std::string>& w)
+{
+	typedef LE<C> E;
+	int throws = std::stoi(w[3]), corrupt = std::stoi(w[4]); int64_t n = std::stoll(w[5]), i = std::stoll(w[6]);
+	std::string out;
+	if (w[2] == "h")
+	{
+		HSet<E> set(htraits<HSet<E>>());
+		for (int64_t k = 1; k <= n; ++k) set.Insert(E(k * 100));
+		out = ec_call(set, set.Find(E((i + 1) * 100)), throws, corrupt);
+	}
+	else
+	{
+		TSet<E> set;
+		for (int64_t k = 1; k <= n; ++k) set.Insert(E(k * 100));
+		out = ec_call(set, set.Find(E((i + 1) * 100)), throws, corrupt);
+	}
+	std::string sum = kit::summary(); kit::W().errors.clear();
+	if (sum != "0 0 0") out += " LEAK(" + sum + ")";
+	return out;
+}
+template<int C>
+static std::string run_sw(const std::vector<std::string>& w)
+{
+	typedef LE<C> E;
+	int64_t n1 = std::stoll(w[2]), n2 = std::stoll(w[3]);
+	std::string out;
+	{
+		TSetD<E> a, b;
+		for (int64_t k = 1; k <= n1; ++k) a.Insert(E(k * 100));
+		for (int64_t k = 1; k <= n2; ++k) b.Insert(E((50 + k) * 100));
+		auto fields = [] (const TSetD<E>& s, int f) -> uint64_t
+		{
+			return f == 0 ? uint64_t(reinterpret_cast<uintptr_t>(s.mCrew.mData)) : f == 1 ? uint64_t(s.mCount)
+				: f == 2 ? uint64_t(reinterpret_cast<uintptr_t>(s.mRootNode)) : uint64_t(reinterpret_cast<uintptr_t>(s.mNodeParams));
+		};
+		uint64_t before[8];
+		for (int f = 0; f < 4; ++f) { before[f] = fields(a, f); before[4 + f] = fields(b, f); }
+		a.Swap(b);
+		for (int j = 0; j < 8; ++j)
+		{
+			int f = j % 4; uint64_t v = fields(j < 4 ? a : b, f);
+			// a name is looked up among the values of the same field kind only
+			int name = v == before[f] ? f + 1 : v == before[4 + f] ? 4 + f + 1 : 0;
+			if (v == before[f] && v == before[4 + f]) name = -1;     // ambiguous: the generator keeps n1 != n2
+			out += (j ? " " : "") + std::to_string(name);
+		}
+		std::vector<int64_t> ia, ib;
+		for (const E& e : a) ia.push_back(e.Value());
+		for (const E& e : b) ib.push_back(e.Value());
+		out += " a=" + join(ia) + " b=" + join(ib);
+		std::string t = check_tree(a, 0); if (t.empty()) t = check_tree(b, 0);
+		if (!t.empty()) out += " INVALID-TREE(" + t + ")";
+	}
+	std::string sum = kit::summary(); kit::W().errors.clear();
+	if (sum != "0 0 0") out += " LEAK(" + sum + ")";
+	return out;
+}
 template<int KC>
 static std::string dispatch_pair(const std::vector<std::string>& w)
 {
@@ -630,6 +709,8 @@ static std::string dispatch(const std::vector<std::string>& w)
 	if (w[0] == "xi" || w[0] == "xa") return run_xi<C>(w);
 	if (w[0] == "eh") return run_eh<C>(w);
 	if (w[0] == "hs") return run_hs<C>(w);
+	if (w[0] == "ec") return run_ec<C>(w);
+	if (w[0] == "sw") return run_sw<C>(w);
 	if (w[0] == "ir") return run_ir<C>(w);
 	if (w[0] == "rp") return run_rp<C>(w);
 	if (w[0] == "sh") return run_sh<C>(w);
